@@ -1,4 +1,6 @@
 import Orca.Gen.RefTables
+import Orca.Gen.ApiOutline
+import Orca.Model.ApiOutlineSpec
 import Orca.Lemmas.Ops
 import Orca.Lemmas.Preserve
 import Orca.Lemmas.Redirect
@@ -87,3 +89,11 @@ theorem c07_ids_are_stable (s0 : St) (h0 : StInv s0) (j : Nat) (x : Item) (hx : 
   encode_designates s0 h0 .G j x hx ops (fun o ho => ⟨fun id h e => (hs o ho).2 (by rw [h, e]), (hs o ho).1⟩)
 
 end Orca.Edit
+
+/-- **The tie to the source (regenerated on every run).** The control-and-call skeletons of the functions this property rests on:
+    `add_import` and `add_imported_global_with_tag` (where the reported id comes from) are what M2's additions were transcribed from. A step moved, an early exit, guard, call or assignment added or removed breaks this obligation; renaming, comments and
+    formatting do not. -/
+theorem c07_import_addition_code_reviewed :
+    Orca.Gen.ApiOutline.add_import = Orca.ApiOutlineSpec.add_import
+    ∧ Orca.Gen.ApiOutline.add_imported_global_with_tag = Orca.ApiOutlineSpec.add_imported_global_with_tag :=
+  ⟨rfl, rfl⟩
